@@ -562,10 +562,41 @@ package sam
 //@   ensures [idx] forall(t, 0, len(sent(chnl)), sent(chnl)[t].idx == t && len(sent(chnl)[t].records) >= 1)
 
 //@ # C18: validation prefixes of the entry points (statements before the first goroutine)
-//@ func ToPairAlign prefix
+//@ # the whole orchestration of `sam toPairAlign` in spawns mode (model and assumptions: see closest.Closest)
+//@ func ToPairAlign spawns
 //@   modifies everything
 //@   after if#2: assert [c18.oneref] len(refs) == 1
 //@   after if#3: assert [c18.window] 1 <= trimStart && trimStart <= trimEnd && trimEnd <= len(refSeq)
+//@   after assign:cWriteDone#1: assume [env.errors] forallint(k, envat(cErr, k) != nil)
+//@   ghost gErrSeen bool = false
+//@   before call:groupSamRecords#1: assert [c02.reader] arg(0) == samIn && arg(1) == cSH && arg(2) == cSR && arg(3) == cReadDone && arg(4) == cErr
+//@   before call:writePairwiseAlignment#1: assert [c02.writer] arg(0) == outpath && arg(1) == wrap && arg(2) == cPairTrim && arg(3) == cWriteDone && arg(4) == cErr && arg(5) == omitRef
+//@   before call:blockToPairwiseAlignment#1: assert [c02.worker] arg(0) == cSR && arg(1) == cPairAlign && arg(2) == cErr && arg(4) == omitIns
+//@   before call:trimAlignment#1: assert [c15.trimmer] arg(0) == trim && arg(1) == trimStart && arg(2) == trimEnd && arg(3) == cPairAlign && arg(4) == cPairTrim && arg(5) == cErr
+//@   before return#4: do gErrSeen = true
+//@   before return#4: assert [c18.error.first] len(recvd(cErr)) == 1 && err == recvd(cErr)[0]
+//@   loop 1:
+//@     invariant !gErrSeen && len(recvd(cErr)) == 0 && len(recvd(cReadDone)) == 0 && len(recvd(cAlignWaitGroupDone)) == 0 && len(recvd(cTrimWaitGroupDone)) == 0 && len(recvd(cWriteDone)) == 0
+//@   loop 2:
+//@     invariant !gErrSeen && len(recvd(cErr)) == 0 && len(recvd(cReadDone)) == 0 && len(recvd(cAlignWaitGroupDone)) == 0 && len(recvd(cTrimWaitGroupDone)) == 0 && len(recvd(cWriteDone)) == 0
+//@   loop 3:
+//@     invariant !gErrSeen && len(recvd(cErr)) == 0 && 0 <= n && n <= 1 && len(recvd(cReadDone)) + n == 1 && len(recvd(cAlignWaitGroupDone)) == 0 && len(recvd(cTrimWaitGroupDone)) == 0 && len(recvd(cWriteDone)) == 0
+//@   loop 4:
+//@     invariant !gErrSeen && len(recvd(cErr)) == 0 && len(recvd(cReadDone)) == 1 && 0 <= n && n <= 1 && len(recvd(cAlignWaitGroupDone)) + n == 1 && len(recvd(cTrimWaitGroupDone)) == 0 && len(recvd(cWriteDone)) == 0
+//@   loop 5:
+//@     invariant !gErrSeen && len(recvd(cErr)) == 0 && len(recvd(cReadDone)) == 1 && len(recvd(cAlignWaitGroupDone)) == 1 && 0 <= n && n <= 1 && len(recvd(cTrimWaitGroupDone)) + n == 1 && len(recvd(cWriteDone)) == 0
+//@   loop 6:
+//@     invariant !gErrSeen && len(recvd(cErr)) == 0 && len(recvd(cReadDone)) == 1 && len(recvd(cAlignWaitGroupDone)) == 1 && len(recvd(cTrimWaitGroupDone)) == 1 && 0 <= n && n <= 1 && len(recvd(cWriteDone)) + n == 1
+//@   before return#5: do gErrSeen = true
+//@   before return#6: do gErrSeen = true
+//@   before return#7: do gErrSeen = true
+//@   before return#8: do gErrSeen = true
+//@   before return#5: assert [c18.error.first] len(recvd(cErr)) == 1 && err == recvd(cErr)[0]
+//@   before return#6: assert [c18.error.first] len(recvd(cErr)) == 1 && err == recvd(cErr)[0]
+//@   before return#7: assert [c18.error.first] len(recvd(cErr)) == 1 && err == recvd(cErr)[0]
+//@   before return#8: assert [c18.error.first] len(recvd(cErr)) == 1 && err == recvd(cErr)[0]
+//@   before return#9: assert [c18.nil.means.clean] len(recvd(cErr)) == 0 && len(recvd(cReadDone)) == 1 && len(recvd(cAlignWaitGroupDone)) == 1 && len(recvd(cTrimWaitGroupDone)) == 1 && len(recvd(cWriteDone)) == 1
+//@   ensures [c18.error.returned] implies(gErrSeen, result != nil)
 //@ func Variants prefix
 //@   modifies everything
 //@   after if#3: assert [c18.oneref] len(refs) == 1
